@@ -131,8 +131,12 @@ func (g *gen) content(form string) content {
 
 func (g *gen) rec(key string, allowDeleted bool) recSpec {
 	r := g.r
-	form := vlib.Pick(r, "struct", "struct", "struct", "json", "json", "json", "opaque")
+	form := vlib.Pick(r, "struct", "struct", "estruct", "estruct", "json", "json", "json", "opaque")
 	rs := recSpec{Key: key, Form: form, C: g.content(form), Meta: "fresh"}
+	if form == "estruct" && r.Chance(1, 4) {
+		// nil embedded pointer: the fields behind it (F, B) are absent, as in the JSON form
+		rs.NilPtr = true
+	}
 	if r.Chance(2, 5) {
 		rs.Meta = "keep"
 	}
@@ -490,8 +494,11 @@ func genWideHistory(seed uint64, cfg cfgSpec, no int, longStall bool) history {
 		s, t := fmt.Sprintf("name-of-%04d-v%d", i, version), "wide"
 		iv, nv, f, b := int64(i), int32(i%7), float64(i)/4, i%3 == 0
 		form := "struct"
-		if i%4 == 1 {
+		switch i % 4 {
+		case 1:
 			form = "json"
+		case 2:
+			form = "estruct"
 		}
 		return recSpec{Key: key(i), Form: form, C: content{S: &s, T: &t, I: &iv, N: &nv, F: &f, B: &b}, Meta: "fresh"}
 	}
